@@ -86,7 +86,7 @@ class Case:
 def make_cases(seed, tier, ndefs=None, ntypes=None, nvals=None):
     rng = random.Random(seed * 7919 + 13)
     ndefs = ndefs or (40 if tier == "quick" else 120)
-    ntypes = ntypes or (220 if tier == "quick" else 1500)
+    ntypes = ntypes or (220 if tier == "quick" else 1000)
     nvals = nvals or 3
     U = build_universe(rng, ndefs)
     kdefs, kpairs = known_pair_defs()
@@ -95,7 +95,7 @@ def make_cases(seed, tier, ndefs=None, ntypes=None, nvals=None):
     types = []
     seen = set()
     depth = 3 if tier == "quick" else 5
-    size_limit = 2500 if tier == "quick" else 9000
+    size_limit = 2500 if tier == "quick" else 6000
     # every definition instantiated at least once, then random types
     for name in U.order:
         d = U.defs[name]
@@ -801,7 +801,8 @@ def run_campaign(tier):
     c.tagc = {x.cid: tag_counts(c.U, x.t, x.v) for x in c.cases}
     # every cut / failure position for short streams; for longer ones in the quick tier the first
     # and last 48 and every step-th (the thorough tier tries all of them)
-    c.steps = {x.cid: (1 if tier != "quick" else max(1, approx_len(c.U, x.t, x.v) // 96)) for x in c.cases}
+    # (the thorough tier tries every position of streams up to ~500 bytes and a four times denser sample beyond)
+    c.steps = {x.cid: max(1, approx_len(c.U, x.t, x.v) // (96 if tier == "quick" else 500)) for x in c.cases}
     heavy_limit = 700 if tier == "quick" else 4000
 
     def iops(x):
